@@ -93,6 +93,10 @@ def check_shift(ctx, case):
                     if g not in allowed:
                         ctx.fail('%s/value-overflow/%s' % (sig, 'neg' if k < 0 else 'pos'), case, {'code': k, 'n': n, 'allowed': sorted(allowed), 'got': g})
                         return
+    rb = C.values(z)
+    if rb != [M.value_of(g, zf) for g in got]:
+        ctx.fail(sig + '/readback', case, {'codes': got, 'read': [str(v) for v in rb], 'vdtype': str(z.vdtype)})
+        return
     if n == 0:
         if [M.value_of(g, zf) for g in got] != [M.value_of(k, f) for k in codes]:
             ctx.fail(sig + '/n=0-not-identity', case, {'got': got})
